@@ -191,7 +191,7 @@ def transform_expression(
     """
     pddl_variables = set(re.findall(r"(\([\w-]+\s[?\w\-\s]*\))", expression))
     if len(pddl_variables) == 0:
-        return expression, symbols_to_use
+        return expression, symbols_to_use if symbols_to_use is not None else {}
 
     # Extract the left part of the inequality
     symbolic_vars = {**symbols_to_use} if symbols_to_use else {}
